@@ -82,13 +82,19 @@ def run(ctx):
     entry_all = ["propagate_phaseless", "propagate_phaseless_ad", "propagate_phaseless_ad_nosr",
                  "propagate_phaseless_ad_norot", "propagate_phaseless_ad_nosr_norot", "propagate_phaseless_ad_1"]
     cap_diff_cases = 0
+    skipped_scf = [0]
     for wt, tk, nelec in wts:
         for nb in ((1, 2) if ctx.tier == "quick" else (1, 2, 4)):
             for g in (grids if nb == 1 else grids[:1]):
                 seed = rng.randrange(1 << 30)
                 rs_ = random.Random(seed)
                 S = systems.make_system(rs_, tk, wt, norb=4, nelec=nelec, nchol=2, n_walkers=4, dt=0.05,
-                                        n_batch=nb, prop_batch=nb, seed=seed, converge=4)
+                                        n_batch=nb, prop_batch=nb, seed=seed, converge=0, h_scale=1.5, l_scale=0.3)
+                # converged by a solver that shares no code with trial.optimize
+                S = systems.converge_independent(S)
+                if S["scf_residual"] > 1e-11:
+                    skipped_scf[0] += 1
+                    continue
                 smp = sampling.sampler(n_prop_steps=g[0], n_ene_blocks=g[1], n_sr_blocks=g[2], n_blocks=1)
                 wdc = S["wave_data"]
                 desc = {"walker_type": wt, "trial": tk, "n_batch": nb, "grid": g, "seed": seed}
@@ -140,7 +146,8 @@ def run(ctx):
                 # batch independence against n_batch = 1 with the same seed
                 if nb > 1:
                     S1 = systems.make_system(random.Random(seed), tk, wt, norb=4, nelec=nelec, nchol=2, n_walkers=4, dt=0.05,
-                                             n_batch=1, prop_batch=1, seed=seed, converge=4)
+                                             n_batch=1, prop_batch=1, seed=seed, converge=0, h_scale=1.5, l_scale=0.3)
+                    S1 = systems.converge_independent(S1)
                     try:
                         e1, _ = call("propagate_phaseless", smp, S1)
                         if g_("propagate_phaseless") is not None and abs(float(np.real(e1)) - g_("propagate_phaseless")) > tol:
@@ -218,6 +225,7 @@ def run(ctx):
     ctx.cov["samples"] = (lines[:1] or ["-"]) + [json.dumps(sorted(combos)[:3])]
     ctx.cov["branches"] = {"single_block_cases": len(refs), "cases_where_cap_differs_between_real_and_complex_test": cap_diff_cases,
                            "near_tie_skipped": skipped}
+    ctx.cov["skipped"] = {"option_combinations_whose_plain_Roothaan_iteration_did_not_settle (no converged trial to test with)": skipped_scf[0]}
     ctx.cov["correspondence"] = {"estimator_cases": len(refs), "entry_point_calls": evals}
     ctx.assumptions += ["hypotheses of the equalities: optimize is the identity on a converged trial; rebuilding intermediates at zero coupling reproduces them",
                         "Python call semantics (arity check is static, on the AST)", "jax.random determinism for a fixed key"]
